@@ -15,7 +15,9 @@ the translation: the unit-trace blocks (skipped when they have exactly the known
 and the loop of `Action::from_routes_rule` (`genMerge`, `genFromRoutesRule`), with `action_eq_spec` restated.  Third part:
 the selection loops (with `continue`) of `filter_headers` and the whole of `create_filter_body`; NOT translated there: the
 tail of `filter_headers` (`FilterHeaderAction::new(..).filter(..)`, the `X-RedirectionIo-RuleIds` header; C13 / C05
-`filter_headers_end_to_end` cover it on the model).
+`filter_headers_end_to_end` cover it on the model) — only its SHAPE is checked, fail closed, when the section is generated
+(`filters` handed unchanged to `FilterHeaderAction::new`, no further write to `filters` / `rules_applied`,
+`get_applied_rule_ids()` = `&self.rules_applied`).
 -/
 import RioModel.Props.C05
 import RioModel.Proofs.ActionGen
@@ -92,7 +94,12 @@ theorem observations_gen (R : List Rule) (q : Req) (draw : Rule → Nat) (allowL
 
 /-! ### the selection loops of `filter_headers` / `create_filter_body`, regenerated (section `w4_translate_select`) -/
 
-/-- the translated loops are the modelled observers, on every action -/
+/-- the translated loops are the modelled observers, on every action.  For `filter_headers` the translation covers
+the two selection loops only: the left-hand side is (the vector `filters`, `rules_applied`) AFTER THE TWO LOOPS; that
+the rest of the function hands exactly this vector to `FilterHeaderAction::new` and does not touch `rules_applied`
+again is a fail-closed SHAPE CHECK of the extractor (tools/consts.d/w4_translate.py `_check_filter_headers_tail`), not
+a translation; what the tail then does with them (`FilterHeaderAction::filter`, the rule-ids header) is the model's
+`filterHeadersFull` (C13gen / C05 `filter_headers_end_to_end`), tied by the correspondence. -/
 theorem gen_selection_eq_model {κ : Type} (newBody : List BodyFilter → κ) (isEmptyBody : κ → Bool)
     (a : Action) (c : Nat) (add : Bool) :
     Rio.Consts.genActionSelectHeaderFilters lhsInsert c (a.ruleTraces.map toGenTrace) (a.headerFilters.map toGenHF)
@@ -103,8 +110,10 @@ theorem gen_selection_eq_model {κ : Type} (newBody : List BodyFilter → κ) (i
   ⟨genSelectHeaderFilters_eq a c add, genCreateFilterBody_eq newBody isEmptyBody a c⟩
 
 /-- **Header-filter selection, closed form, for the regenerated loops**: on the computed action, for response code
-`c`, the filters handed to `FilterHeaderAction::new` are the header filters of the contributing rules admitting `c`,
-in priority order, and `rules_applied` receives the admitted rules (traces first, then once per selected filter). -/
+`c`, the vector `filters` AFTER THE TWO LOOPS holds the header filters of the contributing rules admitting `c`, in
+priority order, and `rules_applied` after the two loops has received the admitted rules (traces first, then once per
+selected filter).  (That this vector is what `FilterHeaderAction::new` gets: shape check of the extractor, see
+`gen_selection_eq_model`.) -/
 theorem header_selection_closed_form_gen (R : List Rule) (q : Req) (draw : Rule → Nat) (c : Nat) :
     let C := contributing q draw (sortRules R)
     let a := fromRoutesRule R q draw
